@@ -68,6 +68,28 @@ Theorem c03_wait_section_result : forall s a x pk k slow,
 Proof. exact wait_section_result. Qed.
 Print Assumptions c03_wait_section_result.
 
+(* the same along runs, as monitor clauses (3,8) / (3,9) read it on observed traces: whenever the critical section of a
+   Wait call parked at its HoldLock gate runs (the mutex is free) and the predicate returns error e on the guarded
+   value, the call has returned exactly that error right after this very step - there is NO premise about its context:
+   a cancellation that arrived while the call was parked at the gate does not replace the predicate's error - and the
+   step leaves the guarded value unchanged.  (c03_wait_error_passthrough is the converse: returned 10+e only so.) *)
+Theorem c03_wait_section_error_returned_at_once : forall es a x pk k slow e,
+  nth_error (acts (run es)) a = Some x -> ak x = KWait pk k slow -> apc x = PGate -> sheld (run es) = false ->
+  evalp pk k (sg (run es)) = PErr e ->
+  exists x', nth_error (acts (run (es ++ [Sect a]))) a = Some x' /\ apc x' = PRet (10 + e) /\
+             sg (run (es ++ [Sect a])) = sg (run es).
+Proof. exact wait_section_error_at_once. Qed.
+Print Assumptions c03_wait_section_error_returned_at_once.
+
+(* and with a predicate that returns true the call has returned nil right after the step (in particular it is not blocked) *)
+Theorem c03_wait_section_true_returned_at_once : forall es a x pk k slow,
+  nth_error (acts (run es)) a = Some x -> ak x = KWait pk k slow -> apc x = PGate -> sheld (run es) = false ->
+  evalp pk k (sg (run es)) = PTrue ->
+  exists x', nth_error (acts (run (es ++ [Sect a]))) a = Some x' /\ apc x' = PRet 3 /\
+             sg (run (es ++ [Sect a])) = sg (run es).
+Proof. exact wait_section_true_at_once. Qed.
+Print Assumptions c03_wait_section_true_returned_at_once.
+
 (* Wait returns context.Canceled only if its context was cancelled: by a cancel event for this call, or because the
    call was made with an already cancelled context *)
 Theorem c03_wait_canceled_only_if_cancelled : forall es a x pk k slow,
@@ -170,4 +192,31 @@ Example c03_example_monitors_accept_model :
               [3; 3]; [2; 2; 2; 0; 0]; [3; 4]; [4; 0]; [3; 0]; [1; 0; 0; 1; 1]; [3; 5]; [1; 1; 0; 0; 0]]%N in
   let obss := run_obs hstep init evs in
   length obss = length evs /\ run_check_bcast [] evs obss = [].
+Proof. vm_compute. split; reflexivity. Qed.
+
+(* a Wait call parked at its gate, cancelled there, then its section runs: predicate error -> that error (not Canceled),
+   true -> nil, false -> Canceled; and the uncancelled contrast *)
+Example c03_example_cancelled_at_gate_then_section :
+  let es := [CallWait 2 0 false false; CallWait 0 0 false false; CallWait 1 7 false false; CallWait 3 0 false false;
+             CallWait 2 0 false false;
+             CancelCtx 0; CancelWake 0; CancelCtx 1; CancelWake 1; CancelCtx 2; CancelWake 2; CancelCtx 3; CancelWake 3;
+             Sect 0; Sect 1; Sect 2; Sect 3; Sect 4] in
+  map (fun x => code_pc (apc x)) (acts (run es)) = [10; 3; 4; 10; 10]%N /\
+  map acanc (acts (run es)) = [true; true; true; true; false].
+Proof. vm_compute. split; reflexivity. Qed.
+
+(* clauses (3,8) and (3,9) do fire: the same harness history with an observation in which the cancelled call reports
+   context.Canceled instead of its predicate's error is flagged by the monitors (besides disagreeing with the model),
+   and so is one in which a call whose predicate returned true is observed blocked *)
+Example c03_example_clause8_fires :
+  let evs := [[2; 2; 0; 0; 0]; [4; 0]; [3; 0]]%N in
+  run_obs hstep init evs = [[0; 1; 1]; [0; 1; 1]; [0; 1; 10]]%N /\
+  run_check_bcast [] evs [[0; 1; 1]; [0; 1; 1]; [0; 1; 4]]%N = [Mismatch 2 [0; 1; 10]%N [0; 1; 4]%N; PropFalse 3 8 2].
+Proof. vm_compute. split; reflexivity. Qed.
+
+Example c03_example_clause9_fires :
+  let evs := [[1; 0; 0; 0; 2]; [3; 0]; [2; 0; 1; 0; 0]; [3; 1]]%N in
+  run_obs hstep init evs = [[0; 1; 1]; [1; 1; 3]; [1; 2; 3; 1]; [1; 2; 3; 3]]%N /\
+  run_check_bcast [] evs [[0; 1; 1]; [1; 1; 3]; [1; 2; 3; 1]; [1; 2; 3; 2]]%N =
+    [Mismatch 3 [1; 2; 3; 3]%N [1; 2; 3; 2]%N; PropFalse 3 9 3].
 Proof. vm_compute. split; reflexivity. Qed.
